@@ -23,6 +23,8 @@ SCOPES = {
     "quick": dict(
         states=dict(NA=2, G=2, Prio=[1, 2], XG=1),
         states_limit=12000,
+        stateseq=dict(NA=2, G=2, Prio=[1, 1], XG=1),
+        stateseq_limit=6000,
         history=dict(NA=2, G=1, Prio=[1, 2], XG=1, MaxAge=0, MaxClock=1, MaxDepth=5, HPref={NONE, -1, 1}, HLo={NONE, 0}, HHi={NONE, 0, 1}),
         history_limit=24000,
         sim=dict(NA=3, G=2, Prio=[1, 2, 3], XG=2, MaxAge=1, MaxClock=3, MaxDepth=9),
@@ -32,6 +34,8 @@ SCOPES = {
         states=dict(NA=2, G=2, Prio=[1, 2], XG=2),
         states_limit=None,
         states3=dict(NA=3, G=1, Prio=[1, 2, 3], XG=1),
+        stateseq=dict(NA=3, G=1, Prio=[1, 1, 2], XG=1),
+        stateseq_limit=None,
         history=dict(NA=2, G=1, Prio=[1, 2], XG=1, MaxAge=1, MaxClock=2, MaxDepth=6, HPref={NONE, -1, 1}, HLo={NONE, 0}, HHi={NONE, 0, 1}),
         history_limit=None,
         sim=dict(NA=4, G=3, Prio=[1, 2, 3, 5], XG=3, MaxAge=2, MaxClock=6, MaxDepth=12),
@@ -39,7 +43,19 @@ SCOPES = {
     ),
 }
 
-BASE = dict(MaxAge=1, MaxClock=0, MaxDepth=0, HPref=set(), HLo=set(), HHi=set())
+BASE = dict(MaxAge=1, MaxClock=0, MaxDepth=0, HPref=set(), HLo=set(), HHi=set(), ExclInside=False)
+
+# source ids per actor index: every naming is increasing in the index (so the (priority, source_id)
+# order of the code equals the spec's rank order also for equal priorities) but hashes differently,
+# which varies the iteration order of the bucket set
+NAMINGS = [
+    lambda i: f"actor-{i}",
+    lambda i: f"src{i}-q",
+    lambda i: "abcdefghij"[i] + "k",
+    lambda i: f"m{i:03d}z",
+]
+DECOY_A = frozenset({101, 102})  # registered before the group under test
+DECOY_B = frozenset({201})  # registered after it
 
 
 # ---------------------------------------------------------------------------
@@ -61,12 +77,35 @@ TS = datetime(2024, 1, 1, tzinfo=timezone.utc)
 class Real:
     """One real Matryoshka instance plus the projection used by the trace spec."""
 
-    def __init__(self, prio: list[int], max_age: int) -> None:
+    def __init__(self, prio: list[int], max_age: int, naming: int = 0, decoys: bool = False) -> None:
         self.Power, self.Proposal, Matryoshka, self.Bounds, self.SystemBounds = _mk()
         self.m = Matryoshka(max_proposal_age=timedelta(seconds=max_age))
         self.prio = prio
         self.clock = 0.0
         self.sys = None
+        self.name = NAMINGS[naming % len(NAMINGS)]
+        self.decoys = decoys
+        self.decoy_b_done = False
+        self.decoy_sys = self.SystemBounds(
+            timestamp=TS, inclusion_bounds=self.Bounds(self.pw(-50), self.pw(50)), exclusion_bounds=None
+        )
+        if decoys:
+            self._decoy(DECOY_A)
+
+    def _decoy(self, ids) -> None:
+        """Other component groups with always-fresh proposals (environment of the group under test)."""
+        p = self.Proposal(
+            source_id="decoy", preferred_power=self.pw(7), bounds=self.Bounds(None, None), component_ids=ids,
+            priority=1, creation_time=self.clock, set_operating_point=False,
+        )
+        self.m.calculate_target_power(ids, p, self.decoy_sys, must_return_power=True)
+
+    def refresh_decoys(self) -> None:
+        if not self.decoys:
+            return
+        self._decoy(DECOY_A)
+        if self.decoy_b_done:
+            self._decoy(DECOY_B)
 
     def pw(self, v):
         return None if v == NONE else self.Power.from_watts(float(v))
@@ -88,7 +127,7 @@ class Real:
 
     def propose(self, who: int, pref: int, lo: int, hi: int):
         p = self.Proposal(
-            source_id=f"actor-{who}",
+            source_id=self.name(who),
             preferred_power=self.pw(pref),
             bounds=self.Bounds(self.pw(lo), self.pw(hi)),
             component_ids=IDS,
@@ -96,7 +135,11 @@ class Real:
             creation_time=self.clock,
             set_operating_point=False,
         )
-        return self.m.calculate_target_power(IDS, p, self.sys, must_return_power=True)
+        t = self.m.calculate_target_power(IDS, p, self.sys, must_return_power=True)
+        if t is not None and self.decoys and not self.decoy_b_done:
+            self.decoy_b_done = True
+            self._decoy(DECOY_B)
+        return t
 
     def recalc(self):
         return self.m.calculate_target_power(IDS, None, self.sys, must_return_power=True)
@@ -119,7 +162,7 @@ class Real:
 
 def replay_history(case: dict, cfg: dict) -> dict:
     steps = case["steps"]
-    r = Real(cfg["Prio"], cfg["MaxAge"])
+    r = Real(cfg["Prio"], cfg["MaxAge"], naming=case["id"], decoys=True)
     out = []
     for i, s in enumerate(steps):
         a = s["a"]
@@ -130,8 +173,10 @@ def replay_history(case: dict, cfg: dict) -> dict:
             t = r.propose(s["who"], s["pref"], s["lo"], s["hi"])
         elif a == "tick":
             r.clock += 1.0
+            r.refresh_decoys()
             t = r.recalc()
         elif a == "drop":
+            r.refresh_decoys()
             r.m.drop_old_proposals(r.clock)
             t = r.recalc()
         else:
@@ -170,7 +215,7 @@ def replay_state(case: dict, cfg: dict, want_c04: bool) -> dict:
     orders = []
     first = None
     for order in (0, 1, 2):
-        r = Real(cfg["Prio"], 1)
+        r = Real(cfg["Prio"], 1, naming=order + case["id"])
         r.set_sys(sysr)
         # make sure the group's bucket exists even when nobody is live (state-level: created = TRUE)
         if not (sysr["has"] or sysr["xlo"] or sysr["xhi"]):
@@ -304,12 +349,16 @@ def run(prop: str, tier: str) -> int:
     work = scratch(f"{prop}_{tier}")
     rep.assumptions = [
         "values on an integer grid (W); float behaviour beyond exact small integers not decided",
-        "distinct priorities per actor; one component group",
+        "C04 clauses: distinct priorities per actor; C03 additionally with equal priorities (tie broken by source id)",
+        "other component groups exist only as always-fresh decoys (the resolver is per group)",
         "the harness reads no private state: only calculate_target_power / get_target_power / get_status / drop_old_proposals",
     ]
     _stage(rep, prop, "states", sc["states"], work, "states", sc["states_limit"])
     if "states3" in sc:
         _stage(rep, prop, "states3", sc["states3"], work, "states", None)
+    if prop == "C03" and "stateseq" in sc:
+        # equal priorities: the code orders by (priority, source_id); C04's "higher priority" clauses do not apply
+        _stage(rep, prop, "stateseq", sc["stateseq"], work, "states", sc["stateseq_limit"], inv=MC_INV["C03"])
     _stage(rep, prop, "history", sc["history"], work, "history", sc["history_limit"], inv=MC_INV["C03"] + ["ClosestAdmissible", "NoPrefZero"])
     n = sc["sim_num"]
     _stage(rep, prop, "sim", sc["sim"], work, "sim", None, simulate=f"num={max(1, n // 16)}", inv=MC_INV["C03"] + ["ClosestAdmissible", "NoPrefZero"])
